@@ -378,6 +378,8 @@ def written(step, target, pre, post, counters=None):
           w.model_mismatch += 1
       if entries is None:
         if _identical(pre_m, post_m):
+          if cid in rebind_lists:
+            w.loose.add(cid)     # a mixed batch that cancelled out
           continue
         if len(pre_m) == len(post_m) and cid not in rebind_lists and not (
             cid == id(target) and op.startswith('List.')):
